@@ -58,7 +58,7 @@ type step struct {
 	ErrTx    []int  `json:"errtx,omitempty"`
 	ErrAll   bool   `json:"errall,omitempty"`
 	// reorg
-	How string `json:"how,omitempty"` // gone | moved | failed | ok
+	How string `json:"how,omitempty"` // gone | moved | failed | ok | pooled (back in the pool: the node serves a receipt without block hash / number)
 	// reobs
 	HeadErr bool       `json:"headerr,omitempty"`
 	RcptErr bool       `json:"rcpterr,omitempty"`
@@ -119,10 +119,11 @@ type mRLog struct {
 	Ev *mLog  `json:"ev"` // nil = does not parse as LogMessagePublished
 }
 type mRcpt struct {
-	St   uint64  `json:"st"`
-	Blk  uint64  `json:"blk"`
-	BH   int     `json:"bh"`
-	Logs []mRLog `json:"logs"`
+	St    uint64  `json:"st"`
+	Blk   uint64  `json:"blk"`
+	BH    int     `json:"bh"`
+	Logs  []mRLog `json:"logs"`
+	NoBlk bool    `json:"noblk,omitempty"` // blockNumber null (receipt.BlockNumber == nil)
 }
 type mReobs struct {
 	T  string `json:"t"`
@@ -1193,7 +1194,21 @@ func (sc *scen) runStep(si int, st *step) {
 				}
 				sort.Slice(r.Logs, func(i, j int) bool { return r.Logs[i].Body < r.Logs[j].Body })
 			}
-			r.Status, r.BH, r.Block = 1, st.BH, st.Block
+			r.Status, r.BH, r.Block, r.Pooled = 1, st.BH, st.Block, false
+		case "pooled":
+			// the block of the log left the chain and the transaction is back in the pool; this node answers eth_getTransactionReceipt
+			// for a pooled transaction with a pending-style receipt: status 1, blockHash null, blockNumber null
+			if r == nil {
+				r = &simRcpt{}
+				sim.rcpts[st.Tx] = r
+				for _, l := range sc.logs {
+					if l.Tx == st.Tx {
+						r.Logs = append(r.Logs, l)
+					}
+				}
+				sort.Slice(r.Logs, func(i, j int) bool { return r.Logs[i].Body < r.Logs[j].Body })
+			}
+			r.Status, r.BH, r.Block, r.Pooled = 1, 0, 0, true
 		case "failed":
 			if r != nil {
 				r.Status = 0
@@ -1226,8 +1241,11 @@ func (sc *scen) runStep(si int, st *step) {
 			sim.rcptErr[st.Tx] = true
 		}
 		if r != nil && !st.RcptErr {
-			rc := &mRcpt{St: r.Status, Blk: r.Block, BH: r.BH}
+			rc := &mRcpt{St: r.Status, Blk: r.Block, BH: r.BH, NoBlk: r.Pooled, Logs: []mRLog{}}
 			for _, l := range r.Logs {
+				if r.Pooled {
+					break // the pending-style receipt carries no logs
+				}
 				ml := mRLog{A: 1, T0: evmABI.Events["LogMessagePublished"].ID.Hex()}
 				if l.AddrForeign {
 					ml.A = 2
@@ -1242,9 +1260,9 @@ func (sc *scen) runStep(si int, st *step) {
 			info.Rc = rc
 			if st.BbhErr {
 				sim.bbhErr[r.BH] = true
-			} else {
+			} else if !r.Pooled {
 				info.BT = int64(blockTimeOf(hID(kindBlock, uint64(r.BH))))
-			}
+			} // pooled: the receipt's block hash decodes as the zero hash, which no block has: the block-time lookup fails
 			if st.Bump > 0 && !headErr {
 				sim.bumpOnRcpt[st.Tx] = st.Bump
 				info.HA += int64(st.Bump)
@@ -1481,6 +1499,12 @@ drainSets:
 			otherLookups = append(otherLookups, allLk[gi])
 		}
 	}
+	scanConfirmed := false
+	for _, s := range scans {
+		if countStr(s.Notes, "confirmed") > 0 {
+			scanConfirmed = true
+		}
+	}
 	for _, m := range fw {
 		l := sc.logs[m.Body]
 		if l == nil {
@@ -1512,6 +1536,8 @@ drainSets:
 					why = "lookup-failed"
 				case lk.Status != 1:
 					why = "failed-tx"
+				case lk.NoBlock:
+					why = "receipt-names-no-block"
 				case lk.BH != inst.bh:
 					why = "re-mined-tx"
 				case inst.block+e > lk.Head:
@@ -1524,6 +1550,12 @@ drainSets:
 			why = "already-resolved"
 		} else {
 			why = "never-observed"
+		}
+		if why == "receipt-names-no-block" && (st.Op != "reobs" || scanConfirmed) {
+			// (in a re-observation step: only if a per-head scan of this step logged 'observation confirmed', i.e. the scan forwarded)
+			sc.monf("safety:receipt-names-no-block", "step %d (%s): message of tx %d (block %d, block hash id %d, level %d, body %d) was forwarded although its receipt no longer points to the block of the log: the block left the chain, the transaction is back in the pool and the node answered eth_getTransactionReceipt with a pending-style receipt (status 1, blockHash null, blockNumber null - go-ethereum decodes that as the zero hash); the receipt lookup(s) of this step: %+v; head served %d. The statement allows forwarding only while the receipt still points to the same block; the pinned code drops such an entry ('tx got dropped and mined in a different block')",
+				si, st.Op, l.Tx, keyBlock(inst), inst.bh, l.CL, m.Body, lookups, headNow)
+			continue
 		}
 		if st.Op == "reobs" && st.Tx == l.Tx {
 			rwhy := "no-receipt"
@@ -1651,6 +1683,8 @@ drainSets:
 				what := "orphaned"
 				if r != nil && r.Status != 1 {
 					what = "failed"
+				} else if r != nil && r.Pooled {
+					what = "back-in-the-pool"
 				} else if r != nil {
 					what = "re-mined"
 				}
@@ -1829,6 +1863,9 @@ func runScenario(sid int, cfg scenCfg, script []step) histRow {
 		}
 	}
 	sc.stats["polls_failed"] = int(sc.sim.pollsFailed)
+	if sc.sim.pooledServed > 0 {
+		sc.stats["receipts_served_without_block"] = sc.sim.pooledServed
+	}
 	sc.sim.mu.Unlock()
 	for _, li := range sc.lost {
 		sc.sim.mu.Lock()
@@ -2188,6 +2225,24 @@ func corpus() []struct {
 		{scenCfg{Wait: true, Head0: 999, PollMs: 1, Name: "restart-orphaned-while-down"},
 			[]step{lg(1, 1, 1000, 1), lg(2, 2, 1000, 1), {Op: "restart", Kill: "blocktime", Tx: 3, Body: 3, Em: 1, Seq: 3, CL: 1, Block: 1000, BH: 3},
 				{Op: "reorg", Tx: 1, How: "gone"}, {Op: "reobs", Tx: 3}, hd(1100), lg(4, 4, 1100, 1), hd(1101), hd(1102)}},
+		// ---- a reorg puts the transaction back into the pool and the node answers eth_getTransactionReceipt with a receipt that names no
+		// block (status 1, blockHash null, blockNumber null): the receipt no longer points to the block of the log, the message must not be
+		// forwarded (the pinned code drops the entry as re-mined at the first head that is deep enough); re-mined later and announced
+		// again, it is forwarded once from its new block
+		{scenCfg{Wait: true, Head0: 999, PollMs: 1, Name: "pooled-receipt-without-block"},
+			[]step{lg(1, 1, 1000, 2), lg(2, 2, 1000, 1), hd(1001), {Op: "reorg", Tx: 1, How: "pooled"}, hd(1002), hd(1003),
+				{Op: "reorg", Tx: 1, How: "moved", BH: 9, Block: 1003}, {Op: "log", Tx: 1, Body: 1, Em: 1, Seq: 1, CL: 2, Block: 1003, BH: 9}, hd(1004), hd(1005), hd(1006)}},
+		{scenCfg{Wait: true, Head0: 999, PollMs: 1, Sentinel: true, Name: "pooled-receipt-before-and-past-the-depth"},
+			[]step{{Op: "log", Tx: sentinelTx, Body: sentinelTx, Em: 9, Seq: 0, CL: 1, Block: sentinelHeight, BH: sentinelTx},
+				lg(1, 1, 1000, 5), lg(2, 2, 1000, 15), {Op: "reorg", Tx: 1, How: "pooled"}, {Op: "reorg", Tx: 2, How: "pooled"}, hd(1003), hd(1004), hd(1005), hd(1006),
+				{Op: "head", To: 1015, ErrTx: []int{2}}, hd(1080), hd(1081)}},
+		{scenCfg{Wait: false, Finalized: true, Head0: 990, PollMs: 1, Name: "pooled-receipt-finalized-mode"},
+			[]step{lg(1, 1, 1000, 1), {Op: "reorg", Tx: 1, How: "pooled"}, hd(999), hd(1000), hd(1001)}},
+		// the re-observation path for such a transaction: the receipt's block hash decodes as the zero hash, no block has it, the
+		// block-time lookup fails and nothing is forwarded; once re-mined and deep enough, the re-observation forwards it
+		{scenCfg{Wait: true, Head0: 1000, PollMs: 1, Name: "pooled-receipt-reobservation"},
+			[]step{lg(1, 1, 1000, 1), {Op: "reorg", Tx: 1, How: "pooled"}, {Op: "reobs", Tx: 1}, {Op: "reobs", Tx: 1, Bump: 3}, hd(1004), {Op: "reobs", Tx: 1},
+				{Op: "reorg", Tx: 1, How: "moved", BH: 9, Block: 1004}, {Op: "reobs", Tx: 1}, {Op: "reobs", Tx: 1, Bump: 2}, {Op: "reobs", Tx: 1}}},
 		// ---- hand-over under back-pressure: the message channel is unbuffered (as lockC in node.go) and the reader (the processor) is busy
 		// (a) confirmed while the reader is away, reader back later: exactly once; a message confirmed with the reader present in between
 		{scenCfg{Wait: true, Head0: 999, PollMs: 1, SlowReader: true, Name: "handover-reader-away-then-back"},
@@ -2258,6 +2313,16 @@ func TestVerifC10(t *testing.T) {
 			cfg.Sentinel = r.chance(70)
 			cfg.Restarts = r.chance(30)
 			script := genScript(r, &cfg, cfg.Sentinel, probe.maxWaitConfirmations)
+			// in a tenth of the histories the node is one that serves pending-style receipts: transactions that a reorg removed are (mostly)
+			// back in the pool and their receipt names no block (a generator of its own again)
+			r3 := &erng{s: evmSeed()*1000000007 + uint64(i)*15485863 + 29}
+			if r3.chance(10) {
+				for k := range script {
+					if script[k].Op == "reorg" && script[k].How == "gone" && r3.chance(65) {
+						script[k].How = "pooled"
+					}
+				}
+			}
 			// hand-over under back-pressure in a few generated histories (drawn from a generator of its own: the other histories of a
 			// seed stay what they were): unbuffered message channel, and the reader is away while some of the heads are processed
 			r2 := &erng{s: evmSeed()*998244353 + uint64(i)*104729 + 71}
